@@ -27,7 +27,7 @@ ASSUMPTIONS = ["non-negative quadrant (library-wide precondition; -1 is the 'hal
                "decimal families: results within 1e-9*scale of the exact value; predicates are compared only when "
                "the exact quantity is not on the decision boundary (counted as 'ambiguous')",
                "distance tolerance set as a die of that size would set it (1e-11*scale)"]
-BOUNDS = {'quick': '5x5-point grid, 8 families, all ordered pairs (10 000 per family), cuts/grids/points per rectangle',
+BOUNDS = {'quick': 'ratios 0, 0.001, 0.01, 0.1, 0.3 for cuttability; touching under two tolerances set in a row; 5x5-point grid, 8 families, all ordered pairs (10 000 per family), cuts/grids/points per rectangle',
           'thorough': 'same plus 6x6-point grid (225 rectangles, 50 625 ordered pairs) for all 8 families and 7x7-point grid '
                       '(441 rectangles, 194 481 ordered pairs) for 4 families and 8x8-point grid (784 rectangles, 614 656 ordered pairs) for 2 families'}
 
@@ -308,6 +308,22 @@ def check_single(case, res):
             if (P.region, bool(P.fixed), bool(P.hard)) != (region, fixed, hard):
                 bad('split-after-setters', (region, fixed, hard), (P.region, P.fixed, P.hard))
                 break
+        # touching follows the tolerance in force: two tolerances set one after the other (8 times apart, as two designs of
+        # slightly different size set them), a rectangle above R at a gap between the two
+        from frame.geometry.geometry import Rectangle as _Rc, Point as _Pt, Shape as _Sh
+        e1 = _Rc.distance_epsilon()
+        if region == '_' and not fixed and e1 > 0:
+            gap = 5 * e1
+            U = _Rc(center=_Pt(R.center.x, R.center.y + R.shape.h + gap), shape=_Sh(R.shape.w, R.shape.h))
+            real_gap = (U.center.y - U.shape.h / 2) - (R.center.y + R.shape.h / 2)
+            if 2 * e1 < real_gap < 7 * e1:          # (the gap survived the rounding of the coordinates)
+                t_small = R.touches(U)
+                _Rc.set_epsilon(8 * e1)
+                t_large = R.touches(U)
+                _Rc.set_epsilon(e1)
+                t_back = R.touches(U)
+                if (t_small, t_large, t_back) != (False, True, False):
+                    bad('touches-tolerance', (False, True, False), (t_small, t_large, t_back), eps=e1)
         D = R.duplicate()
         if not (D == R and D is not R and D.fixed == fixed and D.hard == hard and D.region == region):
             bad('duplicate', repr(R), repr(D))
@@ -377,7 +393,7 @@ def check_single(case, res):
                 if msg:
                     bad('rectangle_grid', f'{nr}x{nc} equal pieces tiling the rectangle', msg, square=(nr == nc))
         # ---- cuttability
-        for ratio in (0.001, 0.01, 0.1, 0.3):
+        for ratio in (0.0, 0.001, 0.01, 0.1, 0.3):
             fr = F(ratio).limit_denominator(1000)
             cand_x = {f(i) for i in range(n + 1)}
             cand_y = set(cand_x)
